@@ -75,14 +75,20 @@ class Pool:
             if v is V0:
                 raise UserFault("injected")
             return True
-        self.filters2 = [None, accept, reject, selective, faulty]
+        class FalsyReject:                         # a callable whose truth value is false: still a filter, not "no filter"
+            def __bool__(self):
+                return False
+
+            def __call__(self, *a):
+                return False
+        self.filters2 = [None, accept, reject, selective, faulty, FalsyReject()]
         self.rfilters = [None, lambda v: True, lambda v: v is not V0, lambda v: []]
         for k_, v_ in enumerate(self.V):
             v_.tag = k_ % 2
         for k_, v_ in enumerate(self.V + self.U):
             v_.pname = "n%d" % k_                  # a unique printable name (title format of the PlantUML operation)
         self.filters1 = [None, lambda e: True, lambda e: 0, lambda e: isinstance(e, E["DirectedEdge"]),
-                         _faulty1(E["UnDirectedEdge"])]
+                         _faulty1(E["UnDirectedEdge"]), FalsyReject()]
 
     def vert(self, i):
         if i is None or i < 0:
